@@ -201,6 +201,8 @@ Definition key_to_pie (c : oclass) (kb : keyblock) : res pobj :=
       Ok p
   | _, _ => Err
   end.
+Definition prime_ok (o : option Z) : bool :=
+  match o with None => true | Some z => (- 9223372036854775808 <=? z) && (z <? 9223372036854775808) end.
 Definition core_to_pie (s : secret) : res pobj :=
   match s with
   | SKey CSym kb =>
@@ -215,6 +217,8 @@ Definition core_to_pie (s : secret) : res pobj :=
   | SKey _ _ => Err
   | SSplit kb sp =>
       do p <- key_to_pie CSplit kb;
+      (* SplitKey.prime_field_size setter: the BigInteger column is 64 bits signed (fix 7aebdbf) *)
+      if negb (prime_ok (sp_prime sp)) then Err else
       Ok (mkP CSplit (p_value p) (p_alg p) (p_len p) (p_fmt p) (p_kc p)
               (Some (sp_parts sp)) (Some (sp_ident sp)) (Some (sp_thresh sp)) (Some (sp_method sp)) (sp_prime sp)
               (p_sub p) (p_state p) (p_masks p) (p_names p) (p_groups p) (p_asi p) (p_sensitive p) (p_policy p) (p_initial p) (p_owner p))
